@@ -115,6 +115,11 @@ def _insert_df(duck_conn: DuckDBPyConnection, df: pd.DataFrame, table_name: str)
         df[col] = df[col].apply(lambda x: json.dumps(x) if isinstance(x, (dict, list)) else x)
 
     escaped_cols = ",".join(f'"{col}"' for col in df.columns.to_list())
-    duck_conn.execute(f"INSERT INTO {table_name}({escaped_cols}) SELECT * FROM df")
+    # the frame is registered under a name of its own: a bare "FROM df" finds a table called DF before the local variable
+    duck_conn.register("_fs_write_pandas_df", df)
+    try:
+        duck_conn.execute(f"INSERT INTO {table_name}({escaped_cols}) SELECT * FROM _fs_write_pandas_df")
+    finally:
+        duck_conn.unregister("_fs_write_pandas_df")
 
     return duck_conn.fetchall()[0][0]
